@@ -183,34 +183,26 @@ theorem releaseEntry_forest {s s' : State} {k : Nat} {r : WaitResult} (hf : Fore
     exact release_forest (s := { s with sync := upd s.sync k none }) (Forest.congr (s := s) rfl rfl hf) h
 
 /-- Frame of the `claimed_twice` branch of `release_self` (no `GInv` needed). -/
-theorem handback_frame {s s' : State} {k : Nat} {st st' : SyncState}
-    (h : (if st.anyoneWaiting = true then
-            unblockRuntimesBlockedOn { s with sync := upd s.sync k (some st') } k .completed
-          else some { s with sync := upd s.sync k (some st') }) = some s') :
+theorem handback_frame {s s' : State} {t k : Nat} {st : SyncState}
+    (hk : s.sync k = some st) (hct : st.claimedTwice = true) (h : releaseSelf s t k = some s') :
     s'.transferred = s.transferred ∧ s'.tdeps = s.tdeps ∧ s'.bound = s.bound := by
-  cases haw : st.anyoneWaiting with
-  | false =>
-    simp only [haw, Bool.false_eq_true, if_false, Option.some.injEq] at h
-    subst h; exact ⟨rfl, rfl, rfl⟩
-  | true =>
-    simp only [haw, if_true] at h
-    have e := unblockRuntimesBlockedOn_sameTD h
+  rcases releaseSelf_handback_cases hk hct h with ⟨_, rfl⟩ | ⟨_, _, h⟩
+  · exact ⟨rfl, rfl, rfl⟩
+  · have e := unblockRuntimesBlockedOn_sameTD h
     exact ⟨e.transferred, e.tdeps, e.bound⟩
 
-theorem releaseSelf_forest {s s' : State} {k : Nat} (hf : Forest s)
-    (h : releaseSelf s k = some s') : Forest s' := by
-  unfold releaseSelf at h
+theorem releaseSelf_forest {s s' : State} {t k : Nat} (hf : Forest s)
+    (h : releaseSelf s t k = some s') : Forest s' := by
   cases hk : s.sync k with
-  | none => simp [hk] at h
+  | none => simp [releaseSelf, hk] at h
   | some st =>
-    simp only [hk] at h
     cases hct : st.claimedTwice with
     | true =>
-      simp only [hct, if_true] at h
-      obtain ⟨e1, e2, _⟩ := handback_frame h
+      obtain ⟨e1, e2, _⟩ := handback_frame hk hct h
       exact Forest.congr e1 e2 hf
     | false =>
-      simp only [hct, Bool.false_eq_true, if_false] at h
+      unfold releaseSelf at h
+      simp only [hk, hct, Bool.false_eq_true, if_false] at h
       exact release_forest (s := { s with sync := upd s.sync k none }) (Forest.congr (s := s) rfl rfl hf) h
 
 theorem finishClaim_forest {s1 s' : State} {t k : Nat} {blk : Bool} {a : ClaimAnswer} {ans : Answer}
